@@ -65,6 +65,11 @@ func init() {
 		json.Unmarshal(r["spec"], &s)
 		return ev.VerifBlockParameters(&s)
 	}
+	ops["cond_return"] = func(r req) any {
+		var s me.VerifConditionalReturnSpec
+		json.Unmarshal(r["spec"], &s)
+		return map[string]any{"t": me.VerifConditioningMethodReturn(&s)}
+	}
 	ops["exec_type"] = func(r req) any {
 		var s me.VerifExecTypeSpec
 		json.Unmarshal(r["spec"], &s)
